@@ -23,6 +23,8 @@ fn limits(thorough: bool) -> Vec<usize> {
 
 fn lengths_around(l: usize) -> Vec<usize> {
     let mut v = vec![0usize, 1, l.saturating_sub(1), l, l.saturating_add(1).min(U32MAX), (2 * l + 1).min(U32MAX), U32MAX, U32MAX - 1];
+    // declared lengths that do not fit 32 bits: never acceptable, and never to be reported as another number
+    v.extend_from_slice(&[U32MAX + 1, U32MAX + 2, U32MAX + 1 + l, 100_000_000_000]);
     v.sort_unstable();
     v.dedup();
     v
@@ -117,6 +119,11 @@ fn exec_payload_ex(ctx: &mut Ctx, l: usize, n: usize, head: &[u8], cuts: &[usize
         if r.script.pending_reads() > 0 {
             return fail(ctx, "fault", "a header block shorter than the window was not taken in one read".into());
         }
+        if !is_last && n > U32MAX && matches!(so.res, RR::Parse(_)) {
+            // the header line that declares a length beyond 32 bits may be rejected as soon as it is complete
+            last = Some(so);
+            break;
+        }
         if !is_last {
             if so.res != RR::Ok || !so.delivered.is_empty() {
                 return fail(ctx, "early-verdict", format!("before the header block was complete: {:?} / {} deliveries", so.res, so.delivered.len()));
@@ -129,6 +136,21 @@ fn exec_payload_ex(ctx: &mut Ctx, l: usize, n: usize, head: &[u8], cuts: &[usize
         Some(s) => s,
         None => return false,
     };
+    if n > U32MAX {
+        // Not an unsigned 32-bit decimal: the header rules reject it (C15). This property adds: it is never
+        // accepted under any limit, and if it is reported as a size violation the numbers are the real ones.
+        ctx.rep.count("declared_lengths_beyond_32_bits");
+        return match so.res {
+            RR::Parse(EK::SizeLimit(gl, gn)) if gl != l || gn != n => fail(ctx, "size-limit-error-reports-other-numbers", format!("declared {} under limit {}: rejected with SizeLimitExceeded({}, {})", n, l, gl, gn)),
+            RR::Parse(_) => {
+                if r.conn.pending_write() {
+                    return fail(ctx, "over-limit-request-invited-to-send-body", "output was queued for a request whose declared length does not even fit 32 bits".into());
+                }
+                false
+            }
+            other => fail(ctx, "over-limit-not-rejected-at-header-end", format!("declared {} (> 2^32-1 >= every limit): the read completing the header block returned {:?} (deliveries {})", n, other, so.delivered.len())),
+        };
+    }
     if n > l {
         ctx.rep.count("over_limit_cases");
         return match so.res {
